@@ -30,7 +30,18 @@ type runResult struct {
 	Violations []sim.Violation `json:"violations"`
 	Lines      int             `json:"lines"`
 	Mismatch   *mismatch       `json:"mismatch,omitempty"`
+	SpecFail   *specFail       `json:"spec_fail,omitempty"`
+	SpecActs   int             `json:"spec_actions"`
 	Stats      map[string]int  `json:"stats"`
+}
+
+// specFail: the abstract protocol rejected an action the implementation took, or the abstract state
+// diverged from the abstraction of the implementation's state.
+type specFail struct {
+	Line    int      `json:"line"`
+	Action  string   `json:"action"`
+	Output  string   `json:"output"`
+	Context []string `json:"previous"`
 }
 
 type mismatch struct {
@@ -115,6 +126,8 @@ func genOpts(rng *rand.Rand, tier string, mode string) sim.Opts {
 		o.MaxSizePerMsg, o.MaxCommittedSizePerReady = 0, 0
 		o.MaxInflightBytes = 0
 	}
+	// runs with static membership are also replayed through the abstract protocol Spec/Raft.lean
+	o.SpecCheck = !o.ConfChanges
 	return o
 }
 
@@ -136,6 +149,24 @@ func oneRun(o sim.Opts, useModel bool) runResult {
 		if out[i] != want {
 			rr.Mismatch = explain(o, i)
 			return rr
+		}
+	}
+	if c.Spec != nil && len(c.Violations) == 0 {
+		rr.SpecActs = len(c.Spec.Lines)
+		sout, err := model.Run(c.Spec.Lines)
+		if err != nil {
+			rr.SpecFail = &specFail{Line: len(sout), Action: "driver failed: " + err.Error()}
+			return rr
+		}
+		for i, o := range sout {
+			if o != "ok" {
+				sf := &specFail{Line: i, Action: c.Spec.Lines[i], Output: o}
+				for k := max(0, i-12); k < i; k++ {
+					sf.Context = append(sf.Context, c.Spec.Lines[k])
+				}
+				rr.SpecFail = sf
+				break
+			}
 		}
 	}
 	return rr
@@ -352,6 +383,21 @@ func summarise(res *report.Result, all []runResult, expected int) {
 			b, _ := json.Marshal(rr.Opts)
 			res.Sample(fmt.Sprintf("run opts=%s ops=%d", b, rr.Lines))
 		}
+		res.Stats["spec_actions"] += rr.SpecActs
+		if rr.SpecActs > 0 {
+			res.Stats["runs_spec_checked"]++
+		}
+		if rr.SpecFail != nil {
+			res.Disagreements++
+			if !seenV["specfail"] {
+				seenV["specfail"] = true
+				p := report.WriteReplay(fmt.Sprintf("sim_specfail_%d.json", rr.Opts.Seed), rr)
+				res.Violations = append(res.Violations, report.Violation{Property: "SPEC", Kind: "broken-correspondence",
+					Key:    "implementation step is not a step of the abstract protocol",
+					What:   fmt.Sprintf("%q -> %s", clip(rr.SpecFail.Action), clip(rr.SpecFail.Output)),
+					Replay: p})
+			}
+		}
 		if rr.Mismatch != nil {
 			res.Disagreements++
 			if !seenV["mismatch"] {
@@ -408,6 +454,12 @@ func doReplay(path string, trace, useModel bool) {
 	if useModel {
 		o2 := rr.Opts
 		r2 := oneRun(o2, true)
+		if r2.SpecFail != nil {
+			mb, _ := json.MarshalIndent(r2.SpecFail, "", " ")
+			fmt.Printf("spec check failed: %s\n", mb)
+			res.Disagreements++
+			res.Violations = append(res.Violations, report.Violation{Property: "SPEC", Kind: "broken-correspondence", Key: "implementation step is not a step of the abstract protocol", What: clip(r2.SpecFail.Action), Replay: path})
+		}
 		if r2.Mismatch != nil {
 			mb, _ := json.MarshalIndent(r2.Mismatch, "", " ")
 			fmt.Printf("model mismatch: %s\n", mb)
